@@ -250,6 +250,11 @@ AddParent(s, p, R) ==
     /\ IsCa(p) /\ exists[p] /\ p \notin SlotsOf(s)
     /\ parent[s] \in {"none", p}
     /\ \A t \in SlotsOf(s) \ {s} : ~(hasp[t] /\ parent[t] = p)
+    \* (Restriction of this model: class names are not modelled, so the
+    \* children of a CA whose class was removed must have noticed -- their own
+    \* class under it is gone -- before the CA gets a new class, which has a
+    \* new name)
+    /\ \A d \in ChildrenOf(s) : rc[d] = "none" /\ RM(d) \notin tasks
     /\ IF cstate[s] = "none"
        THEN /\ R # NoRes /\ R \subseteq Holdings(p)
             /\ ent' = [ent EXCEPT ![s] = R]
@@ -270,12 +275,16 @@ AddParent(s, p, R) ==
 \* removed (everything under it is withdrawn by the next repository
 \* synchronisation) and a ResourceClassRemoved task without requests is left.
 \* The parent keeps its record of the child.
-\* (Restriction of this model: the CA has no children.  A CA that drops and
-\* later regains its class gives the new class a new name, which its
-\* children learn only at their next listing -- class names are not modelled.)
+\* (Restriction of this model unless "deepremove" is among the operations:
+\* the CA has no children.  With it the certificates issued under the class
+\* go with the class -- KidsDropped --, the children find nothing on offer at
+\* their next listing and drop their own class, and theirs in turn.  A CA
+\* that drops and later regains its class gives the new class a new name,
+\* which its children learn only at their next listing -- class names are
+\* not modelled, see AddParent.)
 RemoveParent(s) ==
     /\ s # Top /\ Ex(s) /\ hasp[s]
-    /\ \A t \in SlotsOf(s) : ChildrenOf(t) = {}
+    /\ ("deepremove" \in Ops \/ \A t \in SlotsOf(s) : ChildrenOf(t) = {})
     /\ LET p == parent[s]
            \* (a class whose only key is still waiting for its first
            \* certificate has nothing to revoke: no message is sent)
